@@ -1119,3 +1119,120 @@ func runUniqWrap(c caseIn) *caseOut {
 	}
 	return out
 }
+
+// runMgr2: TWO IDManagers (two nodes) directly over ONE store that offers atomic set-if-absent.  Both draw the same candidate;
+// node B's whole generation runs inside node A's first existence check of a marker, should A make one (a generator that does
+// not reach the store's SetNX falls back to check-then-write, which only its own mutex protects).  At most one may be handed it.
+func runMgr2(c caseIn) *caseOut {
+	out := &caseOut{PropOK: true, Sched: []int{}, Markers: []int{}, Threads: []thrOut{}}
+	ctx, cancel := context.WithCancel(context.Background())
+	defer cancel()
+	shared := &hookShared{Storage: memory.New(ctx)}
+	mA, mB := idgen.NewIDManager(shared, ctx), idgen.NewIDManager(shared, ctx)
+	savedEntropy := crand.Reader
+	crand.Reader = constEntropy{}
+	defer func() { crand.Reader = savedEntropy }()
+	pick := func(m *idgen.IDManager) func() (string, error) {
+		switch c.Kind {
+		case 1:
+			return m.GenerateUserID
+		case 2:
+			return m.GeneratePortMappingID
+		case 3:
+			return m.GenerateNodeID
+		default:
+			return func() (string, error) { v, err := m.GenerateClientID(); return fmt.Sprint(v), err }
+		}
+	}
+	genA, genB := pick(mA), pick(mB)
+	var idB string
+	var errB error
+	ranB := false
+	shared.hook = func() { ranB = true; idB, errB = genB() }
+	shared.armed = true
+	idA, errA := genA()
+	if !ranB {
+		idB, errB = genB()
+	}
+	out.NodeIDs = []string{fmt.Sprintf("A:%s(%v)", idA, errA), fmt.Sprintf("B:%s(%v)", idB, errB), fmt.Sprintf("B-inside-A's-check:%v", ranB)}
+	if errA == nil && errB == nil && idA == idB {
+		out.PropOK = false
+		out.PropMsg = fmt.Sprintf("two IDManagers (two nodes) on one store WITH set-if-absent were both handed id %s: node B generated inside node A's existence check of the marker (store calls on marker keys: %v) — the generators do not use the store's atomic set-if-absent", idA, shared.calls)
+	}
+	return out
+}
+
+// lateDeleteStore: the FIRST Delete of a node-slot key passes; any further Delete of the same key is parked until `release`
+// is closed (or 300 ms pass): a second, late delete of a slot that has been released once must not exist at all, and if it does
+// it now lands after another node has taken the slot
+type lateDeleteStore struct {
+	*memory.Storage
+	mu      sync.Mutex
+	deletes map[string]int
+	late    int
+	release chan struct{}
+}
+
+func (l *lateDeleteStore) Delete(key string) error {
+	if strings.HasPrefix(key, node.NodeIDKeyPrefix) {
+		l.mu.Lock()
+		l.deletes[key]++
+		n := l.deletes[key]
+		if n > 1 {
+			l.late++
+		}
+		l.mu.Unlock()
+		if n > 1 {
+			select {
+			case <-l.release:
+			case <-time.After(300 * time.Millisecond):
+			}
+		}
+	}
+	return l.Storage.Delete(key)
+}
+
+// runNodeRel: node A allocates a slot and releases it; node B takes the freed slot; whatever A's allocator still does afterwards
+// (heartbeat goroutine winding down) must not touch the slot again: B's marker stays and node C is given another slot.
+func runNodeRel(c caseIn) *caseOut {
+	out := &caseOut{PropOK: true, Sched: []int{}, Markers: []int{}, Threads: []thrOut{}}
+	ctx, cancel := context.WithCancel(context.Background())
+	defer cancel()
+	st := &lateDeleteStore{Storage: memory.New(ctx), deletes: map[string]int{}, release: make(chan struct{})}
+	a, b, cc := node.NewNodeIDAllocator(st), node.NewNodeIDAllocator(st), node.NewNodeIDAllocator(st)
+	ctxA, cancelA := context.WithCancel(ctx)
+	idA, err := a.AllocateNodeID(ctxA)
+	if err != nil {
+		out.PropOK, out.PropMsg = false, "AllocateNodeID failed: "+err.Error()
+		return out
+	}
+	if c.Kind == 1 {
+		cancelA() // shutdown order: context first, then Release
+	}
+	if err := a.Release(); err != nil {
+		out.PropOK, out.PropMsg = false, "Release failed: "+err.Error()
+		return out
+	}
+	if c.Kind != 1 {
+		defer cancelA()
+	}
+	time.Sleep(20 * time.Millisecond) // let A's heartbeat goroutine reach whatever it does on its way out
+	idB, err := b.AllocateNodeID(ctx)
+	if err != nil {
+		out.PropOK, out.PropMsg = false, "second AllocateNodeID failed: "+err.Error()
+		return out
+	}
+	close(st.release) // a parked late delete lands now, after B took the slot
+	time.Sleep(30 * time.Millisecond)
+	okB, _ := st.Exists(node.NodeIDKeyPrefix + idB)
+	idC, errC := cc.AllocateNodeID(ctx)
+	st.mu.Lock()
+	late := st.late
+	st.mu.Unlock()
+	out.NodeIDs = []string{"A:" + idA, "B:" + idB, fmt.Sprintf("C:%s(%v)", idC, errC), fmt.Sprintf("late-deletes:%d", late)}
+	if !okB || (errC == nil && idC == idB) {
+		out.PropOK = false
+		out.PropMsg = fmt.Sprintf("node A released %s, node B was given the freed slot %s; afterwards A's allocator deleted the slot marker AGAIN (%d late delete(s)): B's marker present=%v and node C was given %s while B is alive", idA, idB, late, okB, idC)
+	}
+	return out
+}
